@@ -215,18 +215,30 @@ class Interp:
         q = self.m.resolve_name(self.module, node)
         return self.m.norm(q) if q else None
 
+    def class_list(self, node, depth=0):
+        """Classes named by an `except` / isinstance type expression: a class, a tuple display, or a module-level
+        name bound to a tuple of classes (so that moving the tuple into a constant changes nothing)."""
+        if isinstance(node, ast.Tuple):
+            out = []
+            for e in node.elts:
+                out += self.class_list(e, depth)
+            return out
+        q = self.exc_class(node)
+        if q is not None and (q in self.m.classes or self.m.pyclass(q) is not None):
+            return [q]
+        if isinstance(node, ast.Name) and depth < 3:
+            stmts = self.m.assigns.get(self.module, {}).get(node.id)
+            if stmts and isinstance(getattr(stmts[-1], "value", None), ast.Tuple):
+                return self.class_list(stmts[-1].value, depth + 1)
+        return [q if q is not None else None]
+
     def handler_classes(self, h: ast.ExceptHandler):
         if h.type is None:
             return ["builtins.BaseException"]
-        elts = h.type.elts if isinstance(h.type, ast.Tuple) else [h.type]
         out = []
-        for e in elts:
-            q = self.exc_class(e)
-            if q is None:
-                # a tuple constant such as DECODER_ERROR_CLASSES: external classes
-                out.append("?")
-            else:
-                out.append(q)
+        for q in self.class_list(h.type):
+            # an unresolvable name (e.g. a class attribute holding a tuple such as DECODER_ERROR_CLASSES): external classes
+            out.append("?" if q is None else q)
         return out
 
     def is_urllib3(self, q):
@@ -332,7 +344,7 @@ class Interp:
         if isinstance(node, ast.Call) and isinstance(node.func, ast.Name) and node.func.id == "isinstance" and len(node.args) == 2:
             vals, raises = self.eval(st, node.args[0])
             t = node.args[1]
-            classes = [self.exc_class(e) for e in (t.elts if isinstance(t, ast.Tuple) else [t])]
+            classes = self.class_list(t)
             out = []
             for s, av in vals:
                 if av.kind == "const" and all(c and c.startswith("builtins.") for c in classes):
